@@ -432,49 +432,11 @@ Section Add.
 End Add.
 
 (* ------------------------------------------------------------------ the data operations *)
-Definition PX (x : dstate) (oR : option (list key)) : Prop := P (x_objs x) (x_bag x) oR.
-
-Lemma set_exit_P i x oR :
-  i < length (x_objs x) -> o_exit (getO (x_objs x) i) = false -> PX x oR -> PX (set_exit i x) oR.
-Proof. intros. unfold PX, set_exit; cbn. apply exit_P; auto. Qed.
-
-Lemma set_unmap_P i x oR :
-  o_exit (getO (x_objs x) i) = true ->
-  (forall j, o_parent (getO (x_objs x) j) = Some i -> o_map (getO (x_objs x) j) = false) ->
-  PX x oR -> PX (set_unmap i x) oR.
-Proof. intros. unfold PX, set_unmap; cbn. apply unmap_P; auto. Qed.
-
-Lemma set_dat_P i f x oR : PX x oR -> PX (set_dat i f x) oR.
-Proof. auto. Qed.
-
 (* nothing has a channel as its parent *)
 Lemma chan_no_children l b j p :
   WF l b -> o_parent (getO l j) = Some p -> forall j', o_parent (getO l j') = Some j -> False.
 Proof.
   intros (_ & _ & W3 & _) Hj j' Hj'. apply W3 in Hj'. destruct Hj' as (_ & E & _). congruence.
-Qed.
-
-Lemma add_topic_P t d x oR :
-  find_topic (x_objs x) t = None -> PX x oR -> PX (add_obj (new_topic t) d x) oR.
-Proof.
-  intros F H. unfold PX, add_obj; cbn. apply add_P; auto.
-  - intros p E. discriminate.
-  - intros t' j E. unfold topic_named in E. cbn in E. apply N.eqb_eq in E. subst. apply find_topic_none; auto.
-  - intros p c j E. discriminate.
-Qed.
-
-Lemma get_channel_P p c x oR :
-  p < length (x_objs x) -> is_topic (getO (x_objs x) p) = true -> o_map (getO (x_objs x) p) = true ->
-  PX x oR -> PX (get_channel p c x) oR.
-Proof.
-  intros Lp Tp Mp H. unfold get_channel.
-  destruct (find_chan (x_objs x) p c) eqn:F; auto.
-  unfold PX, add_obj; cbn. apply add_P; auto.
-  - intros q E. cbn in E. inversion E; subst. apply is_topic_spec in Tp. auto.
-  - intros t' j E. discriminate.
-  - intros q c' j E. unfold chan_named, is_chan_of in E. cbn in E.
-    rewrite !andb_true_iff in E. destruct E as [[E1 _] E2].
-    apply Nat.eqb_eq in E1. apply N.eqb_eq in E2. subst. apply find_chan_none; auto.
 Qed.
 
 (* what drop_chans does to the fields *)
@@ -510,101 +472,177 @@ Proof.
   - intros j. rewrite um_map, andb_true_iff. tauto.
 Qed.
 
-Lemma drop_chans_P js : forall x oR,
-  PX x oR ->
-  (forall j, In j js -> j < length (x_objs x) /\ o_parent (getO (x_objs x) j) <> None) ->
-  PX (drop_chans js x) oR /\ dc_rel (x_objs x) (x_objs (drop_chans js x)) /\
-  (forall j, In j js -> o_map (getO (x_objs (drop_chans js x)) j) = false).
-Proof.
-  induction js as [|j r IH]; intros x oR H Hjs; cbn [drop_chans].
-  - split; auto. split. apply dc_rel_refl. intros j [].
-  - destruct (Hjs j (or_introl eq_refl)) as [Lj Pj].
-    set (x1 := if o_exit (getO (x_objs x) j) then x else set_exit j x).
-    assert (H1 : PX x1 oR /\ dc_rel (x_objs x) (x_objs x1) /\ o_exit (getO (x_objs x1) j) = true).
-    { unfold x1. destruct (o_exit (getO (x_objs x) j)) eqn:E.
-      - split; auto. split; auto. apply dc_rel_refl.
-      - split. apply set_exit_P; auto. split. apply dc_rel_exit.
-        unfold set_exit. cbn [x_objs]. rewrite ex_exit, Nat.eqb_refl. reflexivity. }
-    destruct H1 as (H1 & D1 & E1).
-    assert (H2 : PX (set_unmap j x1) oR).
-    { apply set_unmap_P; auto. intros j' Hj'. exfalso.
-      destruct D1 as (_ & D1p & _). destruct H1 as (W & _).
-      destruct (o_parent (getO (x_objs x1) j)) as [p|] eqn:Pj1.
-      - eapply chan_no_children; eauto.
-      - rewrite D1p in Pj1. congruence. }
-    assert (D2 : dc_rel (x_objs x) (x_objs (set_unmap j x1))).
-    { eapply dc_rel_trans; eauto. apply dc_rel_unmap. }
-    destruct (IH (set_unmap j x1) oR H2) as (H3 & D3 & M3).
-    { intros j' Hj'. destruct (Hjs j' (or_intror Hj')) as [A B].
-      destruct D2 as (D2l & D2p & _). rewrite D2l, D2p. auto. }
-    split; auto. split. { eapply dc_rel_trans; eauto. }
-    intros j' [<-|Hj']; auto.
-    destruct D3 as (_ & _ & _ & D3m).
-    destruct (o_map (getO (x_objs (drop_chans r (set_unmap j x1))) j)) eqn:E; auto.
-    apply D3m in E. unfold set_unmap in E. cbn [x_objs] in E. rewrite um_map, Nat.eqb_refl in E. discriminate.
-Qed.
-
 Lemma topic_named_facts t o : topic_named t o = true -> is_topic o = true /\ o_map o = true /\ o_t o = t.
 Proof. unfold topic_named. rewrite !andb_true_iff, N.eqb_eq. tauto. Qed.
 
 Lemma chan_named_facts p c o : chan_named p c o = true -> o_parent o = Some p /\ o_map o = true /\ o_c o = c.
 Proof. unfold chan_named. rewrite !andb_true_iff, N.eqb_eq, is_chan_of_spec. tauto. Qed.
 
-Lemma data_step_P c ls o x oR : PX x oR -> PX (data_step c ls o x) oR.
+(* every data operation is a composition of: append a fresh object, set an exit flag,
+   take an exiting object out of its map, touch the data part.  A predicate closed under
+   the first three (given WF) is preserved by every data operation. *)
+Section Closed.
+  Variable Pr : list obj -> list nat -> Prop.
+  Hypothesis Pr_exit : forall l i b, o_exit (getO l i) = false -> WF l b -> Pr l b ->
+     Pr (upd l i (getO l i <| o_exit := true |>)) (b ++ [i]).
+  Hypothesis Pr_unmap : forall l i b, Pr l b -> Pr (upd l i (getO l i <| o_map := false |>)) b.
+  Hypothesis Pr_add : forall l o b, o_exit o = false -> WF l b -> Pr l b -> Pr (l ++ [o]) (b ++ [length l]).
+
+  Definition PX (x : dstate) : Prop := WF (x_objs x) (x_bag x) /\ Pr (x_objs x) (x_bag x).
+
+  Lemma set_exit_P i x :
+    i < length (x_objs x) -> o_exit (getO (x_objs x) i) = false -> PX x -> PX (set_exit i x).
+  Proof. intros L E [W H]. unfold PX, set_exit; cbn. split. apply exit_WF; auto. apply Pr_exit; auto. Qed.
+
+  Lemma set_unmap_P i x :
+    o_exit (getO (x_objs x) i) = true ->
+    (forall j, o_parent (getO (x_objs x) j) = Some i -> o_map (getO (x_objs x) j) = false) ->
+    PX x -> PX (set_unmap i x).
+  Proof. intros E C [W H]. unfold PX, set_unmap; cbn. split. apply unmap_WF; auto. apply Pr_unmap; auto. Qed.
+
+  Lemma set_dat_P i f x : PX x -> PX (set_dat i f x).
+  Proof. auto. Qed.
+
+  Lemma add_topic_P t d x :
+    find_topic (x_objs x) t = None -> PX x -> PX (add_obj (new_topic t) d x).
+  Proof.
+    intros F [W H]. unfold PX, add_obj; cbn. split; [|apply Pr_add; auto].
+    apply add_WF; auto.
+    - intros p E. discriminate.
+    - intros t' j E. unfold topic_named in E. cbn in E. apply N.eqb_eq in E. subst. apply find_topic_none; auto.
+    - intros p c j E. discriminate.
+  Qed.
+
+  Lemma get_channel_P p c x :
+    p < length (x_objs x) -> is_topic (getO (x_objs x) p) = true -> o_map (getO (x_objs x) p) = true ->
+    PX x -> PX (get_channel p c x).
+  Proof.
+    intros Lp Tp Mp [W H]. unfold get_channel.
+    destruct (find_chan (x_objs x) p c) eqn:F; [split; auto|].
+    unfold PX, add_obj; cbn. split; [|apply Pr_add; auto].
+    apply add_WF; auto.
+    - intros q E. cbn in E. inversion E; subst. apply is_topic_spec in Tp. auto.
+    - intros t' j E. discriminate.
+    - intros q c' j E. unfold chan_named, is_chan_of in E. cbn in E.
+      rewrite !andb_true_iff in E. destruct E as [[E1 _] E2].
+      apply Nat.eqb_eq in E1. apply N.eqb_eq in E2. subst. apply find_chan_none; auto.
+  Qed.
+
+  Lemma drop_chans_P js : forall x,
+    PX x ->
+    (forall j, In j js -> j < length (x_objs x) /\ o_parent (getO (x_objs x) j) <> None) ->
+    PX (drop_chans js x) /\ dc_rel (x_objs x) (x_objs (drop_chans js x)) /\
+    (forall j, In j js -> o_map (getO (x_objs (drop_chans js x)) j) = false).
+  Proof.
+    induction js as [|j r IH]; intros x H Hjs; cbn [drop_chans].
+    - split; auto. split. apply dc_rel_refl. intros j [].
+    - destruct (Hjs j (or_introl eq_refl)) as [Lj Pj].
+      set (x1 := if o_exit (getO (x_objs x) j) then x else set_exit j x).
+      assert (H1 : PX x1 /\ dc_rel (x_objs x) (x_objs x1) /\ o_exit (getO (x_objs x1) j) = true).
+      { unfold x1. destruct (o_exit (getO (x_objs x) j)) eqn:E.
+        - split; auto. split; auto. apply dc_rel_refl.
+        - split. apply set_exit_P; auto. split. apply dc_rel_exit.
+          unfold set_exit. cbn [x_objs]. rewrite ex_exit, Nat.eqb_refl. reflexivity. }
+      destruct H1 as (H1 & D1 & E1).
+      assert (H2 : PX (set_unmap j x1)).
+      { apply set_unmap_P; auto. intros j' Hj'. exfalso.
+        destruct D1 as (_ & D1p & _). destruct H1 as (W & _).
+        destruct (o_parent (getO (x_objs x1) j)) as [p|] eqn:Pj1.
+        - eapply chan_no_children; eauto.
+        - rewrite D1p in Pj1. congruence. }
+      assert (D2 : dc_rel (x_objs x) (x_objs (set_unmap j x1))).
+      { eapply dc_rel_trans; eauto. apply dc_rel_unmap. }
+      destruct (IH (set_unmap j x1) H2) as (H3 & D3 & M3).
+      { intros j' Hj'. destruct (Hjs j' (or_intror Hj')) as [A B].
+        destruct D2 as (D2l & D2p & _). rewrite D2l, D2p. auto. }
+      split; auto. split. { eapply dc_rel_trans; eauto. }
+      intros j' [<-|Hj']; auto.
+      destruct D3 as (_ & _ & _ & D3m).
+      destruct (o_map (getO (x_objs (drop_chans r (set_unmap j x1))) j)) eqn:E; auto.
+      apply D3m in E. unfold set_unmap in E. cbn [x_objs] in E. rewrite um_map, Nat.eqb_refl in E. discriminate.
+  Qed.
+
+  Lemma data_step_P c ls o x : PX x -> PX (data_step c ls o x).
+  Proof.
+    intros H. destruct o; cbn [data_step]; auto.
+    - (* TopicCreate *)
+      destruct (find_topic (x_objs x) t) eqn:F; auto. apply add_topic_P; auto.
+    - (* TopicAdvance *)
+      unfold topic_advance. destruct (find_topic (x_objs x) t) as [i|] eqn:F; auto.
+      apply find_topic_some in F. destruct F as [Li Ti]. apply topic_named_facts in Ti. destruct Ti as (T1 & T2 & T3).
+      destruct (d_pc (getD (x_dats x) i)) as [|[|n]]; auto.
+      destruct (d_todo (getD (x_dats x) i)); auto.
+      apply get_channel_P; auto.
+    - (* ChanCreate *)
+      destruct (find_topic (x_objs x) t) as [i|] eqn:F; auto.
+      apply find_topic_some in F. destruct F as [Li Ti]. apply topic_named_facts in Ti. destruct Ti as (T1 & T2 & T3).
+      apply get_channel_P; auto.
+    - (* ChanDeleteBegin *)
+      destruct (find_topic (x_objs x) t) as [i|] eqn:F; auto.
+      destruct (find_chan (x_objs x) i c0) as [j|] eqn:G; auto.
+      apply find_chan_some in G. destruct G as [Lj Cj].
+      destruct (o_exit (getO (x_objs x) j)) eqn:E; auto. apply set_exit_P; auto.
+    - (* ChanDeleteEnd *)
+      destruct (find_topic (x_objs x) t) as [i|] eqn:F; auto.
+      destruct (find_chan (x_objs x) i c0) as [j|] eqn:G; auto.
+      apply find_chan_some in G. destruct G as [Lj Cj]. apply chan_named_facts in Cj. destruct Cj as (C1 & C2 & C3).
+      destruct (o_exit (getO (x_objs x) j)) eqn:E; auto. apply set_unmap_P; auto.
+      intros j' Hj'. exfalso. destruct H as (W & _). apply (chan_no_children _ _ _ _ W C1 _ Hj').
+    - (* TopicDeleteBegin *)
+      destruct (find_topic (x_objs x) t) as [i|] eqn:F; auto.
+      apply find_topic_some in F. destruct F as [Li Ti].
+      destruct (o_exit (getO (x_objs x) i)) eqn:E; auto. apply set_exit_P; auto.
+    - (* TopicDeleteEnd *)
+      destruct (find_topic (x_objs x) t) as [i|] eqn:F; auto.
+      apply find_topic_some in F. destruct F as [Li Ti].
+      destruct (o_exit (getO (x_objs x) i)) eqn:E; auto.
+      destruct (drop_chans_P (chans_of (x_objs x) i) x H) as (H1 & (D1 & D2 & D3 & D4) & M).
+      { intros j Hj. apply In_chans_of in Hj. destruct Hj as (A & B & C0). split; auto.
+        apply is_chan_of_spec in B. congruence. }
+      apply set_unmap_P; auto.
+      intros j Hj. rewrite D2 in Hj.
+      destruct (o_map (getO (x_objs (drop_chans (chans_of (x_objs x) i) x)) j)) eqn:Mj; auto.
+      rewrite <- Mj. apply M. apply In_chans_of. apply D4 in Mj.
+      split; [|split; auto].
+      + destruct (Nat.ltb_spec j (length (x_objs x))); auto.
+        rewrite getO_overflow in Hj by auto. discriminate.
+      + apply is_chan_of_spec. auto.
+    - (* Put *)
+      destruct (find_topic (x_objs x) t) as [i|]; auto.
+      destruct (o_exit (getO (x_objs x) i)); auto.
+    - (* Pump *)
+      destruct (find_topic (x_objs x) t) as [i|]; auto.
+      destruct (d_started (getD (x_dats x) i) && negb (o_exit (getO (x_objs x) i))); auto.
+      destruct (chans_of (x_objs x) i) as [|j0 js]; auto.
+      destruct (d_q (getD (x_dats x) i)) as [|m q]; auto.
+      assert (A : forall js0 y, PX y ->
+         PX (fold_left (fun acc j => set_dat j (fun d => d <| d_q ::= (fun y => y ++ [m]) |>) acc) js0 y)).
+      { induction js0; cbn; auto. }
+      apply A. auto.
+  Qed.
+End Closed.
+
+(* the three instances *)
+Lemma data_step_WF c ls o x :
+  WF (x_objs x) (x_bag x) -> WF (x_objs (data_step c ls o x)) (x_bag (data_step c ls o x)).
 Proof.
-  intros H. destruct o; cbn [data_step]; auto.
-  - (* TopicCreate *)
-    destruct (find_topic (x_objs x) t) eqn:F; auto. apply add_topic_P; auto.
-  - (* TopicAdvance *)
-    unfold topic_advance. destruct (find_topic (x_objs x) t) as [i|] eqn:F; auto.
-    apply find_topic_some in F. destruct F as [Li Ti]. apply topic_named_facts in Ti. destruct Ti as (T1 & T2 & T3).
-    destruct (d_pc (getD (x_dats x) i)) as [|[|n]]; auto.
-    destruct (d_todo (getD (x_dats x) i)); auto.
-    apply get_channel_P; auto.
-  - (* ChanCreate *)
-    destruct (find_topic (x_objs x) t) as [i|] eqn:F; auto.
-    apply find_topic_some in F. destruct F as [Li Ti]. apply topic_named_facts in Ti. destruct Ti as (T1 & T2 & T3).
-    apply get_channel_P; auto.
-  - (* ChanDeleteBegin *)
-    destruct (find_topic (x_objs x) t) as [i|] eqn:F; auto.
-    destruct (find_chan (x_objs x) i c0) as [j|] eqn:G; auto.
-    apply find_chan_some in G. destruct G as [Lj Cj].
-    destruct (o_exit (getO (x_objs x) j)) eqn:E; auto. apply set_exit_P; auto.
-  - (* ChanDeleteEnd *)
-    destruct (find_topic (x_objs x) t) as [i|] eqn:F; auto.
-    destruct (find_chan (x_objs x) i c0) as [j|] eqn:G; auto.
-    apply find_chan_some in G. destruct G as [Lj Cj]. apply chan_named_facts in Cj. destruct Cj as (C1 & C2 & C3).
-    destruct (o_exit (getO (x_objs x) j)) eqn:E; auto. apply set_unmap_P; auto.
-    intros j' Hj'. exfalso. destruct H as (W & _). apply (chan_no_children _ _ _ _ W C1 _ Hj').
-  - (* TopicDeleteBegin *)
-    destruct (find_topic (x_objs x) t) as [i|] eqn:F; auto.
-    apply find_topic_some in F. destruct F as [Li Ti].
-    destruct (o_exit (getO (x_objs x) i)) eqn:E; auto. apply set_exit_P; auto.
-  - (* TopicDeleteEnd *)
-    destruct (find_topic (x_objs x) t) as [i|] eqn:F; auto.
-    apply find_topic_some in F. destruct F as [Li Ti].
-    destruct (o_exit (getO (x_objs x) i)) eqn:E; auto.
-    destruct (drop_chans_P (chans_of (x_objs x) i) x oR H) as (H1 & (D1 & D2 & D3 & D4) & M).
-    { intros j Hj. apply In_chans_of in Hj. destruct Hj as (A & B & C0). split; auto.
-      apply is_chan_of_spec in B. congruence. }
-    apply set_unmap_P; auto.
-    intros j Hj. rewrite D2 in Hj.
-    destruct (o_map (getO (x_objs (drop_chans (chans_of (x_objs x) i) x)) j)) eqn:Mj; auto.
-    rewrite <- Mj. apply M. apply In_chans_of. apply D4 in Mj.
-    split; [|split; auto].
-    + destruct (Nat.ltb_spec j (length (x_objs x))); auto.
-      rewrite getO_overflow in Hj by auto. discriminate.
-    + apply is_chan_of_spec. auto.
-  - (* Put *)
-    destruct (find_topic (x_objs x) t) as [i|]; auto.
-    destruct (o_exit (getO (x_objs x) i)); auto.
-  - (* Pump *)
-    destruct (find_topic (x_objs x) t) as [i|]; auto.
-    destruct (d_started (getD (x_dats x) i) && negb (o_exit (getO (x_objs x) i))); auto.
-    destruct (chans_of (x_objs x) i) as [|j0 js]; auto.
-    destruct (d_q (getD (x_dats x) i)) as [|m q]; auto.
-    assert (A : forall js0 y, PX y oR ->
-       PX (fold_left (fun acc j => set_dat j (fun d => d <| d_q ::= (fun y => y ++ [m]) |>) acc) js0 y) oR).
-    { induction js0; cbn; auto. }
-    apply A. auto.
+  intros W. apply (data_step_P (fun _ _ => True)); auto. split; auto.
+Qed.
+
+Lemma data_step_K2 c ls o x :
+  WF (x_objs x) (x_bag x) -> K2 (x_objs x) (x_bag x) -> K2 (x_objs (data_step c ls o x)) (x_bag (data_step c ls o x)).
+Proof.
+  intros W K. apply (data_step_P K2); try (split; auto; fail).
+  - intros. apply exit_K2; auto.
+  - intros. apply unmap_K2; auto.
+  - intros. apply add_K2; auto.
+Qed.
+
+Lemma data_step_J c ls o x R :
+  WF (x_objs x) (x_bag x) -> J (x_objs x) (x_bag x) R -> J (x_objs (data_step c ls o x)) (x_bag (data_step c ls o x)) R.
+Proof.
+  intros W K. apply (data_step_P (fun l b => J l b R)); try (split; auto; fail).
+  - intros. apply exit_J; auto.
+  - intros. apply unmap_J; auto.
+  - intros. apply add_J; auto.
 Qed.
